@@ -332,8 +332,14 @@ func init() {
 			if u, ok := ast.Unparen(last.Results[0]).(*ast.UnaryExpr); ok && u.Op == token.NOT {
 				flag = prog.IdentObj(info, u.X)
 			}
+			// without a flag: the loop answers (false, err) as soon as a neighbour needs the table and the
+			// function ends with (true, err)
+			earlyReturn := false
+			if tv, ok := info.Types[last.Results[0]]; ok && tv.Value != nil && tv.Value.String() == "true" && flag == nil {
+				earlyReturn = true
+			}
 			errAcc = prog.IdentObj(info, last.Results[1])
-			if flag == nil || errAcc == nil || !isErrorType(errAcc.Type()) {
+			if (flag == nil && !earlyReturn) || errAcc == nil || !isErrorType(errAcc.Type()) {
 				r.Fail(f.Name()+":return-shape", last.Pos(), nil, "ExclusivelyOwnsTable must return (!neighbourNeedsTable, accumulated error)")
 				return
 			}
@@ -383,7 +389,7 @@ func init() {
 							c.Violate(ev.Pos, "[error-overwritten] the accumulated error is overwritten by a result whose error was not established non-nil: a neighbour's failure is forgotten when a later neighbour answers, the function returns (true, nil) and the shared table is deleted although the failed neighbour may need it")
 						}
 					}
-					if lhs == flag {
+					if flag != nil && lhs == flag {
 						if tv, ok := c.Info.Types[ev.Rhs[0]]; ok && tv.Value != nil && tv.Value.String() == "true" {
 							s.A = 2
 							return []pathsim.State{s}
@@ -408,9 +414,21 @@ func init() {
 			setsFlag, foldsErr := false, false
 			inner2 := spec.Step
 			spec.Step = func(c *pathsim.Ctx, s pathsim.State, ev *pathsim.Event) []pathsim.State {
+				if earlyReturn && ev.Kind == pathsim.EvReturn && ev.Pos > collect.Pos() && ev.Pos < collect.End() && len(ev.Results) == 2 {
+					if tv, ok := c.Info.Types[ev.Results[0]]; ok && tv.Value != nil && tv.Value.String() == "false" {
+						if s.V[0] == pathsim.True {
+							setsFlag = true
+						}
+						if prog.IdentObj(c.Info, ev.Results[1]) != errAcc {
+							c.Violate(ev.Pos, "[early-answer-error] the early 'a neighbour needs the table' answer does not carry the accumulated error")
+						}
+					} else {
+						c.Violate(ev.Pos, "[early-answer] the result loop returns something other than (false, accumulated error)")
+					}
+				}
 				if ev.Kind == pathsim.EvAssign && len(ev.Lhs) == 1 && len(ev.Rhs) == 1 && ev.Node.Pos() > collect.Pos() && ev.Node.End() <= collect.End() {
 					lhs := prog.IdentObj(c.Info, ev.Lhs[0])
-					if lhs == flag && s.V[0] == pathsim.True {
+					if flag != nil && lhs == flag && s.V[0] == pathsim.True {
 						if tv, ok := c.Info.Types[ev.Rhs[0]]; ok && tv.Value != nil && tv.Value.String() == "true" {
 							setsFlag = true
 						}
@@ -522,6 +540,12 @@ func init() {
 					if ev.Kind == pathsim.EvFuncLit || (ev.Kind == pathsim.EvCall && ev.Callee == types.Object(asked)) {
 						s.A = 1 // neighbours are being asked
 						return []pathsim.State{s}
+					}
+					if ev.Kind == pathsim.EvRangeIter || ev.Kind == pathsim.EvLoopExit {
+						if rs, ok := ev.Node.(*ast.RangeStmt); ok && prog.SelField(c.Info, rs.X) == r.P.Field("workers/operator", "OperatorPartition", "neighbors") {
+							s.A = 1 // past the loop over all neighbours (possibly none)
+							return []pathsim.State{s}
+						}
 					}
 					if ev.Kind == pathsim.EvReturn && len(ev.Results) == 2 && s.A == 0 && isConstBool(c, ev.Results[0], "true") && s.V[0] != pathsim.True {
 						c.Violate(ev.Pos, "[shortcut-unguarded] ExclusivelyOwnsTable answers 'exclusively owned' without asking any neighbour on a path where the own range was not established to contain the table's range")
@@ -746,11 +770,41 @@ func init() {
 				r.Fail(f.Name()+":no-install", f.Decl.Pos(), nil, "RetainOnly never installs the retained list")
 				return
 			}
+			// the partition may live in an extracted helper that returns (retained, dropped): the
+			// helper's result variables stand for the caller's variables they are assigned to
+			keepSet := map[types.Object]bool{nextVar: true}
+			if src := tupleSource(info, f.Decl.Body, nextVar); src != nil {
+				keepSet[src] = true
+			}
+			dropSet := map[types.Object]bool{}
+			inspect(f.Decl.Body, func(nd ast.Node) bool {
+				as, ok := nd.(*ast.AssignStmt)
+				if !ok || len(as.Lhs) != 1 || len(as.Rhs) != 1 || prog.SelField(info, as.Lhs[0]) != pendF {
+					return true
+				}
+				if call, ok := ast.Unparen(as.Rhs[0]).(*ast.CallExpr); ok && len(call.Args) == 2 && call.Ellipsis.IsValid() {
+					if id, ok := call.Fun.(*ast.Ident); ok && id.Name == "append" && prog.SelField(info, call.Args[0]) == pendF {
+						if o := prog.IdentObjPlain(info, call.Args[1]); o != nil {
+							dropSet[o] = true
+							if src := tupleSource(info, f.Decl.Body, o); src != nil {
+								dropSet[src] = true
+							}
+						}
+					}
+				}
+				return true
+			})
 			isKeep := func(c *pathsim.Ctx, ev *pathsim.Event) bool {
-				return ev.Kind == pathsim.EvAssign && len(ev.Lhs) == 1 && prog.IdentObj(c.Info, ev.Lhs[0]) == nextVar && ev.Node.Pos() > loop.Pos() && ev.Node.End() <= loop.End()
+				return ev.Kind == pathsim.EvAssign && len(ev.Lhs) == 1 && keepSet[prog.IdentObjPlain(c.Info, ev.Lhs[0])] && ev.Node.Pos() > loop.Pos() && ev.Node.End() <= loop.End()
 			}
 			isDrop := func(c *pathsim.Ctx, ev *pathsim.Event) bool {
-				return ev.Kind == pathsim.EvAssign && len(ev.Lhs) == 1 && prog.SelField(c.Info, ev.Lhs[0]) == pendF
+				if ev.Kind != pathsim.EvAssign || len(ev.Lhs) != 1 {
+					return false
+				}
+				if dropSet[prog.IdentObjPlain(c.Info, ev.Lhs[0])] && ev.Node.Pos() > loop.Pos() && ev.Node.End() <= loop.End() {
+					return true
+				}
+				return prog.SelField(c.Info, ev.Lhs[0]) == pendF && ev.Node.Pos() > loop.Pos() && ev.Node.End() <= loop.End()
 			}
 			spec := &pathsim.Spec{}
 			spec.Atom = func(c *pathsim.Ctx, e ast.Expr) (int, bool, bool) {
@@ -881,6 +935,73 @@ func init() {
 				}
 				return true
 			})
+			// the index-search spelling: i := 0; for i < len(S) && !S[i].IncludesTable(uri) { i++ }; return i < len(S)
+			var searchIdx types.Object
+			isCk := func(e ast.Expr) bool { return prog.SelField(ii, deref(ii, e)) == ck || prog.SelField(ii, e) == ck }
+			isIdxLtLen := func(e ast.Expr, idx types.Object) bool {
+				b, ok := ast.Unparen(e).(*ast.BinaryExpr)
+				if !ok {
+					return false
+				}
+				b = orientCmp(b, func(x ast.Expr) bool { return prog.IdentObjPlain(ii, x) == idx })
+				if b.Op != token.LSS || prog.IdentObjPlain(ii, b.X) != idx {
+					return false
+				}
+				c, ok := ast.Unparen(b.Y).(*ast.CallExpr)
+				if !ok || len(c.Args) != 1 {
+					return false
+				}
+				id, ok := c.Fun.(*ast.Ident)
+				return ok && id.Name == "len" && isCk(c.Args[0])
+			}
+			inspect(it.Decl.Body, func(m ast.Node) bool {
+				fs, ok := m.(*ast.ForStmt)
+				if !ok || fs.Init != nil || fs.Post != nil || fs.Cond == nil || len(fs.Body.List) != 1 {
+					return true
+				}
+				inc, ok := fs.Body.List[0].(*ast.IncDecStmt)
+				if !ok || inc.Tok != token.INC {
+					return true
+				}
+				idx := prog.IdentObjPlain(ii, inc.X)
+				b, ok := ast.Unparen(fs.Cond).(*ast.BinaryExpr)
+				if !ok || b.Op != token.LAND || idx == nil || !isIdxLtLen(b.X, idx) {
+					return true
+				}
+				u, ok := ast.Unparen(b.Y).(*ast.UnaryExpr)
+				if !ok || u.Op != token.NOT {
+					return true
+				}
+				c2, ok := ast.Unparen(u.X).(*ast.CallExpr)
+				if !ok || r.P.CalleeFunc(ii, c2) != cpInc {
+					return true
+				}
+				sel, ok := ast.Unparen(c2.Fun).(*ast.SelectorExpr)
+				if !ok {
+					return true
+				}
+				ix, ok := ast.Unparen(sel.X).(*ast.IndexExpr)
+				if !ok || !isCk(ix.X) || prog.IdentObjPlain(ii, ix.Index) != idx {
+					return true
+				}
+				// the index starts at 0
+				if def := localDefPlain(ii, it.Decl.Body, idx); def != nil {
+					return true // (localDefPlain is nil for a variable that is also incremented)
+				}
+				zero := false
+				inspect(it.Decl.Body, func(q ast.Node) bool {
+					if as, ok := q.(*ast.AssignStmt); ok && len(as.Lhs) == 1 && len(as.Rhs) == 1 && prog.IdentObjPlain(ii, as.Lhs[0]) == idx {
+						if tv, ok := ii.Types[as.Rhs[0]]; ok && tv.Value != nil && tv.Value.String() == "0" {
+							zero = true
+						}
+					}
+					return true
+				})
+				if zero {
+					searchIdx, okAny = idx, true
+				}
+				return true
+			})
 			// polarity: `true` is returned exactly on a path where some checkpoint's IncludesTable held,
 			// and the function can return true (an "always false" answer lets neighbours delete shared files)
 			returnsTrue := false
@@ -908,6 +1029,10 @@ func init() {
 							}
 							if call, isCall := deref(c.Info, ev.Results[0]).(*ast.CallExpr); isCall && anyOf[call] {
 								returnsTrue = true
+								return nil
+							}
+							if searchIdx != nil && isIdxLtLen(ev.Results[0], searchIdx) {
+								returnsTrue = true // "the search stopped before the end"
 								return nil
 							}
 							c.Violate(ev.Pos, "[answer-shape] IncludesTable returns something other than a constant or a checkpoint's own answer")
